@@ -12,9 +12,17 @@
 //   * pthread_join of the stopper -> tells that stop() has reached `_thread.join()`;
 //   * pthread_mutex_lock of a drainer started with `park` -> it is held before its 4th acquisition of `_mutex`, which is the restore
 //     section of a timed-out drain (1 gate, 2 sweep, 3 wait), until the op `dgo`.
-// Ops: reset / clk / at / per / cancel / wake / release / inflight / drain <ms> [park] / dwait / dgo / stop / swait.
+//   * timerfd_settime on the service's timerfd -> passed through, and the programmed expiry is recorded as an absolute VIRTUAL time
+//     (`arm=` in the state line; `-` = disarmed); the eventfd is the real one (`poke=` = it is readable, asked from the kernel by poll);
+//     the op `tick` lets the loop thread leave epoll_wait only if the kernel would: eventfd readable or recorded expiry <= virtual now
+//     (answer `sleep` otherwise), and reports exactly the ready fds; `wake` forces a pass (eventfd reported, timerfd too if expired);
+//   * pthread_mutex_lock of a racer thread (`rsched`) -> it is held before its FIRST acquisition of `_mutex`, i.e. between the lock-free
+//     `_accepting` test of scheduleAt() and the re-test under the lock, until the op `rgo`.
+// Ops: reset / clk / at / per / cancel / wake / tick / release / inflight / drain <ms> [park] / dwait / dgo / stop / swait /
+//      svcreset (the real reset()) / start (the real start(): after reset() it creates new fds and a new loop thread) /
+//      rsched <tp> / rgo.
 // Handlers record `s<id>` when they start and `e<id>` when they end; kind `g` (gate) blocks after `s<id>` until `release`;
-// kind `x<j>` calls cancel(j) from the loop thread and records `c<j>=0|1`.
+// kind `x<j>` calls cancel(j) from the loop thread and records `c<j>=0|1`; kind `t` throws std::runtime_error after `s<id>` `e<id>`.
 // After every op the private state is printed: heap array in array order, records and periodic entries sorted by id, the counters
 // and flags.
 #include <algorithm>
@@ -45,6 +53,7 @@
 #include <errno.h>
 #include <pthread.h>
 #include <string.h>
+#include <poll.h>
 #include <sys/epoll.h>
 #include <sys/eventfd.h>
 #include <sys/syscall.h>
@@ -93,6 +102,11 @@ static std::mutex g_m;
 static std::condition_variable g_cv;
 static int g_epfd = -1;            // epoll fd of the service under test
 static int g_evfd = -1;
+static std::atomic<int> g_tfd{-1};             // timerfd of the service under test (-2 = not known yet: every timerfd_settime is the service's)
+static std::atomic<long long> g_arm_abs{-1};   // expiry programmed into the timerfd, ns of virtual time (-1 = disarmed)
+static std::atomic<unsigned long> g_settime_calls{0};
+static int g_wake_mask = 1;        // what the interposed epoll_wait reports on the next pass: 1 eventfd, 2 timerfd
+static unsigned long g_ticks_slept = 0, g_ticks_woke = 0, g_timerfd_wakes = 0;
 static bool g_step = false;        // step mode on/off (off = pass through to the kernel)
 static bool g_parked = false;      // loop thread is inside the interposed epoll_wait
 static bool g_go = false;          // permission for one pass
@@ -112,7 +126,8 @@ struct Waiter
   bool blocked = false;     // inside an interposed condition wait
   bool in_join = false;     // inside pthread_join (stop(): waiting for the loop thread)
   bool join_done = false;   // that pthread_join has returned
-  bool want_park = false;   // hold before the 4th acquisition of _mutex
+  bool want_park = false;   // hold before the `park_at`-th acquisition of _mutex
+  int park_at = 4;
   bool parked = false;
   bool release = false;
   bool abort = false;       // teardown: leave every wait at once
@@ -121,10 +136,11 @@ struct Waiter
   unsigned long ack = 0;    // requests after which the thread re-evaluated and went back to waiting
   std::string result;
   std::thread th;
-  void clear() { active = finished = blocked = in_join = join_done = want_park = parked = release = abort = false; locks = 0; req = ack = 0; result.clear(); }
+  void clear() { active = finished = blocked = in_join = join_done = want_park = parked = release = abort = false; park_at = 4; locks = 0; req = ack = 0; result.clear(); }
 };
 static Waiter g_D;   // drainer
 static Waiter g_S;   // stopper
+static Waiter g_R;   // racer: scheduleAt() held between its lock-free test and its locked section
 static thread_local Waiter* t_w = nullptr;
 static thread_local unsigned long t_pending_ack = 0;
 
@@ -224,7 +240,7 @@ extern "C" int pthread_mutex_lock(pthread_mutex_t* m)
     {
       real(g_m.native_handle());
       ++w->locks;
-      park = w->want_park && w->locks == 4 && !w->abort;
+      park = w->want_park && w->locks == w->park_at && !w->abort;
       if (park)
       {
         w->parked = true;
@@ -248,6 +264,31 @@ extern "C" int pthread_mutex_lock(pthread_mutex_t* m)
   return real(m);
 }
 
+extern "C" int timerfd_settime(int fd, int flags, const struct itimerspec* nv, struct itimerspec* ov)
+{
+  int known = g_tfd.load(std::memory_order_acquire);
+  if (g_virtual.load(std::memory_order_acquire) && nv != nullptr && (fd == known || known == -2) && flags == 0)
+  {
+    long long rel = (long long)nv->it_value.tv_sec * 1000000000LL + nv->it_value.tv_nsec;
+    g_arm_abs.store(rel == 0 ? -1 : g_vns.load(std::memory_order_relaxed) + rel, std::memory_order_release);
+    g_settime_calls.fetch_add(1, std::memory_order_relaxed);
+  }
+  return (int)syscall(SYS_timerfd_settime, fd, flags, nv, ov);
+}
+
+static bool timerExpired()
+{
+  long long a = g_arm_abs.load(std::memory_order_acquire);
+  return a >= 0 && a <= g_vns.load(std::memory_order_relaxed);
+}
+
+static bool fdReadable(int fd)
+{
+  if (fd < 0) return false;
+  struct pollfd p{fd, POLLIN, 0};
+  return ::poll(&p, 1, 0) == 1 && (p.revents & POLLIN) != 0;
+}
+
 extern "C" int epoll_wait(int epfd, struct epoll_event* ev, int maxev, int timeout)
 {
   {
@@ -262,9 +303,15 @@ extern "C" int epoll_wait(int epfd, struct epoll_event* ev, int maxev, int timeo
       if (g_step)
       {
         g_go = false;
-        ev[0].events = EPOLLIN;
-        ev[0].data.fd = g_evfd;
-        return 1;
+        int n = 0;
+        if ((g_wake_mask & 1) && n < maxev) { ev[n].events = EPOLLIN; ev[n].data.fd = g_evfd; ++n; }
+        if ((g_wake_mask & 2) && n < maxev)
+        {
+          ev[n].events = EPOLLIN; ev[n].data.fd = g_tfd.load(); ++n;
+          g_arm_abs.store(-1, std::memory_order_release);   // an expired one-shot timerfd is disarmed
+          ++g_timerfd_wakes;
+        }
+        return n;
       }
     }
   }
@@ -310,7 +357,7 @@ static void watchdog()
 struct HInfo
 {
   std::uint64_t id = 0;
-  char kind = 'n';          // n normal, g gate, x cancels `arg`
+  char kind = 'n';          // n normal, g gate, x cancels `arg`, t throws
   std::uint64_t arg = 0;
 };
 
@@ -320,6 +367,8 @@ struct S
   TimerService* raw = nullptr;   // stays valid while the destructor runs (handlers of the exit path may still call cancel)
   std::vector<std::shared_ptr<HInfo>> hs;
   bool loopGone = false;         // the loop thread has left runLoop and stop() has returned
+  std::vector<std::unique_ptr<iora::core::SteadyTimer>> sts;
+  std::uint64_t racerId = 0;
 
   std::function<void()> handler(std::shared_ptr<HInfo> h)
   {
@@ -346,8 +395,11 @@ struct S
         std::lock_guard<std::mutex> lk(g_m);
         g_events.push_back("c" + std::to_string(h->arg) + "=" + (r ? "1" : "0"));
       }
-      std::lock_guard<std::mutex> lk(g_m);
-      g_events.push_back("e" + std::to_string(h->id));
+      {
+        std::lock_guard<std::mutex> lk(g_m);
+        g_events.push_back("e" + std::to_string(h->id));
+      }
+      if (h->kind == 't') throw std::runtime_error("handler of kind t");
     };
   }
 
@@ -356,7 +408,7 @@ struct S
   void settle()
   {
     std::unique_lock<std::mutex> lk(g_m);
-    for (Waiter* w : {&g_D, &g_S})
+    for (Waiter* w : {&g_D, &g_S, &g_R})
     {
       if (!w->active || w->finished) continue;
       if (w->join_done)
@@ -477,6 +529,8 @@ struct S
       g_gate_open = true;
       g_cv.notify_all();
     }
+    finishWaiter(g_R);
+    sts.clear();                                        // ~SteadyTimer cancels
     for (auto& h : hs) if (h->id) svc->cancel(h->id);   // nothing live: a drain completes at once
     g_vns.fetch_add(6000000000LL);   // whatever a (mutated) cancel left behind is due or beyond every drain horizon now
     svc->poke();
@@ -493,6 +547,111 @@ struct S
     g_go = false;
     g_gates_off = false;
     g_svc_mutex = nullptr;
+    g_tfd.store(-1);
+    g_arm_abs.store(-1);
+  }
+
+  // the loop thread of a freshly started service may already sit in the REAL epoll_wait (it started before the fds were known): poke it
+  // so that its next epoll_wait is the interposed one; if it reached the interposed one first, one forced pass consumes the poke
+  void primeLoop()
+  {
+    {
+      std::lock_guard<std::mutex> lk(g_m);
+      g_epfd = svc->_epollFd;
+      g_evfd = svc->_eventFd.load();
+      g_tfd.store(svc->_timerFd);
+      g_svc_mutex = svc->_mutex.native_handle();
+    }
+    svc->poke();
+    {
+      std::unique_lock<std::mutex> lk(g_m);
+      g_cv.wait(lk, [] { return g_parked; });
+    }
+    while (fdReadable(svc->_eventFd.load()))
+    {
+      {
+        std::lock_guard<std::mutex> lk(g_m);
+        g_wake_mask = 1;
+        g_go = true;
+        g_cv.notify_all();
+      }
+      waitQuiescent();
+    }
+  }
+
+  std::string doStart()
+  {
+    using iora::common::LifecycleState;
+    if (svc->_lifecycleState.load() != LifecycleState::Reset)
+    {
+      auto r = svc->start();
+      return r.success ? "st=ok" : "st=refused";
+    }
+    finishWaiter(g_S);      // the stopper of the previous epoch has returned long ago
+    {
+      std::lock_guard<std::mutex> lk(g_m);
+      g_epfd = -2;
+      g_tfd.store(-2);
+      g_arm_abs.store(-1);
+      g_parked = false;
+      g_go = false;
+    }
+    loopGone = false;
+    auto r = svc->start();
+    if (!r.success) return "st=failed";
+    primeLoop();
+    return "st=ok";
+  }
+
+  std::string startRacer(long long tpNs)
+  {
+    {
+      std::lock_guard<std::mutex> lk(g_m);
+      if (g_R.active) return "r=busy";
+      g_R.clear();
+      g_R.active = true;
+      g_R.want_park = true;
+      g_R.park_at = 1;
+    }
+    auto h = std::make_shared<HInfo>();
+    hs.push_back(h);
+    TimerService* p = raw;
+    auto fn = handler(h);
+    long long base = g_base_ns.load();
+    g_R.th = std::thread([p, h, fn, tpNs, base]() {
+      t_w = &g_R;
+      TimerService::TimePoint tp{nanoseconds(base + tpNs)};
+      std::uint64_t id = p->scheduleAt(tp, fn);
+      h->id = id;
+      std::lock_guard<std::mutex> lk(g_m);
+      g_R.result = std::to_string(id);
+      g_R.finished = true;
+      g_cv.notify_all();
+    });
+    std::unique_lock<std::mutex> lk(g_m);
+    g_cv.wait(lk, [] { return g_R.finished || g_R.parked; });
+    if (g_R.finished)
+    {
+      lk.unlock();
+      g_R.th.join();
+      lk.lock();
+      g_R.active = false;
+      return "r=" + g_R.result;       // refused by the lock-free tests: never reached the mutex
+    }
+    return "r=parked";
+  }
+
+  std::string racerGo()
+  {
+    std::unique_lock<std::mutex> lk(g_m);
+    if (!g_R.active || !g_R.parked) return "r=notparked";
+    g_R.release = true;
+    g_cv.wait(lk, [] { return g_R.finished; });
+    lk.unlock();
+    g_R.th.join();
+    lk.lock();
+    g_R.active = false;
+    return "r=" + g_R.result;
   }
 
   void reset(std::size_t maxTimers, std::size_t maxPeriodic, long long maxTimeoutMs)
@@ -508,20 +667,12 @@ struct S
       std::lock_guard<std::mutex> lk(g_m);
       g_step = true;
       g_epfd = -2;     // learn the fd below; until then nothing matches (the first epoll_wait passes through and returns on our poke)
+      g_tfd.store(-2);
+      g_arm_abs.store(-1);
     }
     svc = std::make_unique<TimerService>(cfg);
     raw = svc.get();
-    {
-      std::lock_guard<std::mutex> lk(g_m);
-      g_epfd = svc->_epollFd;
-      g_evfd = svc->_eventFd.load();
-      g_svc_mutex = svc->_mutex.native_handle();
-    }
-    // the loop thread may already sit in the real epoll_wait (it started before we knew the fd): poke it once so that its next
-    // epoll_wait is the interposed one; the extra pass collects nothing (no timers yet)
-    svc->poke();
-    std::unique_lock<std::mutex> lk(g_m);
-    g_cv.wait(lk, [] { return g_parked; });
+    primeLoop();
   }
 
   std::string state()
@@ -561,9 +712,13 @@ struct S
     case iora::common::LifecycleState::Running: o << " life=R"; break;
     case iora::common::LifecycleState::Draining: o << " life=D"; break;
     case iora::common::LifecycleState::Stopped: o << " life=S"; break;
+    case iora::common::LifecycleState::Reset: o << " life=Z"; break;
     default: o << " life=?"; break;
     }
     o << " run=" << (svc->_running.load() ? 1 : 0);
+    long long arm = g_arm_abs.load();
+    if (arm < 0) o << " arm=-"; else o << " arm=" << arm;
+    o << " poke=" << (fdReadable(svc->_eventFd.load()) ? 1 : 0);
     return o.str();
   }
 };
@@ -587,7 +742,7 @@ static bool parseInt(const std::string& s, long long& out)
 
 static bool parseKind(const std::string& s, HInfo& h)
 {
-  if (s == "n" || s == "g") { h.kind = s[0]; return true; }
+  if (s == "n" || s == "g" || s == "t") { h.kind = s[0]; return true; }
   long long a = 0;
   if (s.size() > 1 && s[0] == 'x' && parseInt(s.substr(1), a) && a >= 0) { h.kind = 'x'; h.arg = (std::uint64_t)a; return true; }
   return false;
@@ -652,17 +807,58 @@ int main()
         bool r = st.svc->cancel((std::uint64_t)a);
         return std::string(r ? "1 \x01" : "0 \x01");
       }
-      if (t.size() == 1 && t[0] == "wake")
+      if (t.size() == 1 && (t[0] == "wake" || t[0] == "tick"))
       {
         if (st.loopGone) return "gone \x01";
         if (blocked) return "busy";
+        // what the kernel would report: the eventfd if it is readable, the timerfd if its programmed expiry has passed
+        int mask = (fdReadable(st.svc->_eventFd.load()) ? 1 : 0) | (timerExpired() ? 2 : 0);
+        if (t[0] == "tick")
+        {
+          if (mask == 0) { ++g_ticks_slept; return "sleep \x01"; }
+          ++g_ticks_woke;
+        }
+        else
+          mask |= 1;      // a forced pass is reported as an eventfd event
         {
           std::lock_guard<std::mutex> lk(g_m);
+          g_wake_mask = mask;
           g_go = true;
           g_cv.notify_all();
         }
         waitQuiescent();
         return "ev=" + takeEvents() + " \x01";
+      }
+      if (t.size() == 1 && t[0] == "svcreset")
+      {
+        auto r = st.svc->reset();
+        return std::string(r.success ? "r=ok \x01" : "r=refused \x01");
+      }
+      if (t.size() == 1 && t[0] == "start")
+        return st.doStart() + " \x01";
+      if (t.size() == 2 && t[0] == "rsched" && parseInt(t[1], a))
+        return st.startRacer(a) + " \x01";
+      if (t.size() == 1 && t[0] == "rgo")
+        return st.racerGo() + " \x01";
+      if (t.size() == 4 && t[0] == "sat" && parseInt(t[1], a) && a >= 0 && a < 8 && parseInt(t[2], b))
+      {
+        // SteadyTimer[a].expiresAt(base + b ns); asyncWait(handler of kind t[3])
+        auto h = std::make_shared<HInfo>();
+        if (!parseKind(t[3], *h)) return "bad-op";
+        if (st.sts.size() <= (std::size_t)a) st.sts.resize((std::size_t)a + 1);
+        if (!st.sts[a]) st.sts[a] = std::make_unique<iora::core::SteadyTimer>(*st.svc);
+        st.sts[a]->expiresAt(TimerService::TimePoint{nanoseconds(g_base_ns.load() + b)});
+        st.sts[a]->asyncWait(st.handler(h));
+        std::uint64_t id = st.sts[a]->_token.value_or(0);
+        h->id = id;
+        st.hs.push_back(h);
+        return std::to_string(id) + " \x01";
+      }
+      if (t.size() == 2 && t[0] == "scancel" && parseInt(t[1], a) && a >= 0 && a < 8)
+      {
+        if (st.sts.size() <= (std::size_t)a || !st.sts[a]) return std::string("0 \x01");
+        bool r = st.sts[a]->cancel();
+        return std::string(r ? "1 \x01" : "0 \x01");
       }
       if (t.size() == 1 && t[0] == "release")
       {
@@ -702,6 +898,7 @@ int main()
   g_op_started_ns.store(realNowNs(), std::memory_order_release);   // the final teardown is watched too
   st.teardown();
   g_op_started_ns.store(0, std::memory_order_release);
-  std::fprintf(stderr, "epoll_parks=%lu wait_slices=%lu clock_reads=%lu\n", g_epoll_parks, g_slices, g_clock_reads.load());
+  std::fprintf(stderr, "epoll_parks=%lu wait_slices=%lu clock_reads=%lu settime_calls=%lu ticks_slept=%lu ticks_woke=%lu timerfd_wakes=%lu\n", g_epoll_parks, g_slices,
+               g_clock_reads.load(), g_settime_calls.load(), g_ticks_slept, g_ticks_woke, g_timerfd_wakes);
   return rc;
 }
